@@ -1,7 +1,6 @@
 package main
 
 import (
-	"encoding/json"
 	"fmt"
 	"sort"
 	"strings"
@@ -14,9 +13,9 @@ import (
 func init() {
 	register(&Prop{
 		ID: "C02", Level: "exploration", Quick: 60000, Thorough: 4000000,
-		Rule: "trial = generated SAM + its reference; queries with 1..3 non-conflicting records (disjoint, or overlapping without an insertion anchor inside another record), any number/placement of insertions incl. at record ends, D/N/S/H/P/=/X; x --skip-insertions x --omit-reference x --start/--end x --wrap x stdout/directory; 3 seeded schedules with --threads in {1,2,3,4,8}; oracle = executable reference model of the pair (and, with --skip-insertions, the toMultiAlign --pad row); outputs are matched per query name; non-trivial = some query has an insertion or a deletion, and >= 2 queries; distinct = distinct (input, options)",
-		Gen:   genC02,
-		Check: checkC02,
+		Rule:     "trial = generated SAM + its reference; queries with 1..3 non-conflicting records (disjoint, or overlapping without an insertion anchor inside another record), any number/placement of insertions incl. at record ends, D/N/S/H/P/=/X; x --skip-insertions x --omit-reference x --start/--end x --wrap x stdout/directory; 3 seeded schedules with --threads in {1,2,3,4,8}; oracle = executable reference model of the pair (and, with --skip-insertions, the toMultiAlign --pad row); outputs are matched per query name; non-trivial = some query has an insertion or a deletion, and >= 2 queries; distinct = distinct (input, options)",
+		Gen:      genC02,
+		Check:    checkC02,
 		Required: []string{"query_with_insertion", "multi_record_query", "insertion_at_record_end", "out_of_order_arrival"},
 	})
 }
@@ -42,7 +41,7 @@ func pairModel(g samGroup, ref string) (pr pairRows, ok bool) {
 			return pr, false
 		}
 	}
-	ins := make([]string, L+1)   // slot p: after p reference bases
+	ins := make([]string, L+1) // slot p: after p reference bases
 	owner := make([]int, L+1)
 	for i := range owner {
 		owner[i] = -1
@@ -174,8 +173,7 @@ func genC02(r *Rand, tier string, ord int) *Trial {
 	if r.P(0.3) {
 		o.Wrap = r.PickInt(1, 3, 7, 60)
 	}
-	b, _ := json.Marshal(sc)
-	t := &Trial{Kind: kind, Case: Case{Cmd: "topa", Files: map[string]string{"sam": sc.Text(), "ref": ">ref\n" + sc.RefSeq + "\n"}, Opts: o}, Params: map[string]string{"samcase": string(b)}}
+	t := &Trial{Kind: kind, Case: Case{Cmd: "topa", Files: map[string]string{"sam": sc.Text(), "ref": ">ref\n" + sc.RefSeq + "\n"}, Opts: o}, Params: map[string]string{}}
 	t.Runs = genRunCfgs(r, 3)
 	return t
 }
@@ -255,9 +253,9 @@ func splitPairsByName(text string, omitRef bool, refName string) (map[string]str
 }
 
 func checkC02(t *Trial, ctx *Ctx) *Failure {
-	var sc SamCase
-	if err := json.Unmarshal([]byte(t.Params["samcase"]), &sc); err != nil {
-		panic(err)
+	sc := *parseSamText(t.Case.Files["sam"])
+	if rr, _ := parseFasta(t.Case.Files["ref"]); len(rr) == 1 {
+		sc.RefSeq = strings.Join(rr[0].seq, "")
 	}
 	o := t.Case.Opts
 	want, prs, ok := c02Expected(&sc, o)
